@@ -23,6 +23,12 @@ known_finding_hits; otherwise it makes the run fail).  Membership predicates are
        Min/Max of the symbolic end-point values itself: (x - 3)*(y - 1) over x in [1,3] gets the range Interval(0, 2 - 2*y)
        because Min(0, 2 - 2*y) evaluates to 0 for positive integer y under the patch).
 
+  F15  the analysed expression (f, or diff(expand(f), s)) contains a reciprocal whose denominator has >= 2 distinct symbols
+       (1/(y*z), 1/(y + z)) AND the failure (reproduced with cold caches) disappears when sympy.core.exprtools._monotonic_sign is
+       disabled: sympy 1.14 computes _monotonic_sign(1/(y*z)) = 1 and _monotonic_sign(1/(y + z)) = 1/2 for positive integer
+       symbols ("positive" taken as ">= 1" under a reciprocal), so (-1 + 1/(y*z)).is_nonnegative is True and the comparator's
+       `not f >= 0` short-cut answers 'never < 0': x/(y*z) - 1 on [1,3]^3 is reported ALWAYS >= 0 although f(1,1,2) = -1/2.
+
 Targeted sub-families (enumerated, deterministic; see targeted_clamps / targeted_signs / targeted_heaviside):
   (a) Max/Min clamps of possibly fractional quotients against c in {1/2, 1, 2, 3}, also with ceiling() around the quotient;
   (b) products / quotients of 2-3 factors each provably <= 0, >= 0 or == 0 on the box (shifted constants, Min/Max factors);
@@ -270,6 +276,7 @@ def targeted(hi_max, depth_max):
 # negative / mixed coefficients.  All enumerated (no randomness); each entry is (tag, tree, box).
 # ---------------------------------------------------------------------------------------------
 HALF = Fraction(1, 2)
+HALF_C = ("const", HALF)
 
 
 def _mul(*fs):
@@ -295,16 +302,19 @@ def targeted_clamps(tier, top):
         (x, C(2), "x", "y", ("div", C(3), x) if thorough else ("div", C(3), y)),  # same-symbol clamp products take seconds each
         (C(3), x, "x", "y", ("div", x, C(2)) if thorough else ("div", y, C(2))),
         (("mul", x, y), z, "x", "y", ("div", z, x)),
+        (x, ("mul", y, z), "x", "y", ("div", ("mul", y, z), x)),  # a denominator with two symbols (class F15)
     ]
     if thorough:
         quots += [
-            (x, ("mul", y, z), "x", "y", ("div", ("mul", y, z), x)),
             (("mul", C(2), x), y, "y", "z", ("div", y, C(3))),
             (x, C(3), "x", "y", ("div", C(2), x)),
             (C(1), x, "x", "y", ("div", x, C(3))),
         ]
     partner_c = {HALF: 2, 1: 3, 2: HALF, 3: 1}
     out = []
+    for f in (("sub", ("div", x, ("add", y, z)), C(1)), ("sub", ("div", C(1), ("add", y, z)), C(Fraction(1, 4))),
+              ("sub", C(1), ("div", C(3), ("mul", y, z))), ("sub", ("div", C(2), ("mul", x, y)), HALF_C)):
+        out.append(("a", f, _full(f, top)))  # reciprocals of a sum / product of two symbols against a constant (class F15)
     for qi, (num, den, s, t, pq) in enumerate(quots):
         Q, cQ = ("div", num, den), ("ceil", num, den)
         # the bare quotient against 1 on the full box and on a sub-box where the verdict is stronger (stale range caches)
@@ -312,7 +322,7 @@ def targeted_clamps(tier, top):
         out.append(("a", f, _full(f, top)))
         out.append(("a", f, {n: ((2, top) if n == s else (1, 2)) for n in ast_syms(f)}))
         for c in (HALF, 1, 2, 3):
-            if not thorough and qi > 0 and c == 3:  # on boxes within 1..3 only x/y makes the clamp at 3 interesting
+            if not thorough and ((qi > 0 and c == 3) or (qi == 4 and c == 2)):  # on boxes within 1..3 only x/y makes the clamp at 3 interesting
                 continue
             for kind, other in (("max", "min"), ("min", "max")):
                 K, K2 = (kind, C(c), Q), (other, C(partner_c[c]), pq)
@@ -321,7 +331,7 @@ def targeted_clamps(tier, top):
                     fs += [("sub", K, C(c)), ("sub", C(c), K), ("div", K, Q), ("div", Q, K), ("sub", ("mul", C(2), K), Q),
                            ("mul", K, (other, C(c), Q)), ("sub", K, (other, C(partner_c[c]), Q))]
                 if not thorough and qi > 0:  # quick: all combinations for x/y only
-                    fs = {1: fs[:4] + fs[5:6], 2: [fs[0], fs[2], fs[5]], 3: [fs[0], fs[5]]}[qi]
+                    fs = {1: fs[:4] + fs[5:6], 2: [fs[0], fs[2], fs[5]], 3: [fs[0], fs[5]], 4: [fs[0], fs[5]]}[qi]
                 for f in fs:
                     out.append(("a", f, _full(f, top)))
                 # a second box on which the clamp is (mostly) inactive / active the other way: stale per-formula caches
@@ -581,24 +591,31 @@ def real_call(kind, expr, sym, bounds, limit):
 # ---------------------------------------------------------------------------------------------
 # known classes (membership predicates)
 # ---------------------------------------------------------------------------------------------
-def _sound_with_pristine_sympy(r):
-    """F12's / F14's differential predicate: the call fails with cold caches under the module's patch, and no longer fails when the
-    formula is rebuilt and the call repeated with sympy's own _is_connected"""
+def _sound_after(r, variant):
+    """differential predicates of F12 / F14 (variant 'pristine') and F15 (variant 'monotonic'): the call fails with cold caches
+    in the unchanged set-up, and no longer fails when the formula is rebuilt and the call repeated with
+      'pristine'  : sympy's own MinMaxBase._is_connected in place of the module's _is_connected_cached,
+      'monotonic' : sympy.core.exprtools._monotonic_sign disabled (it answers None = 'cannot tell')."""
     M, sp, syms = _load()
-    if _S["pristine"] is None:
+    if variant == "pristine" and _S["pristine"] is None:
         return False
     from sympy.core.cache import clear_cache
+    import sympy.core.exprtools as ET
 
     MMB = _S["MinMaxBase"]
+    saved_ms = ET._monotonic_sign
     try:
-        # the failure must be one of the input, not of the evaluation order: repeated with cold caches under the module's own patch
-        # it has to show again (a verdict that is wrong only with warm caches is a stale-cache failure, which is in no known class)
+        # the failure must be one of the input, not of the evaluation order: repeated with cold caches in the unchanged set-up it
+        # has to show again (a verdict that is wrong only with warm caches is a stale-cache failure, which is in no known class)
         _clear_caches()
         v, _ = real_call(r["kind"], r["expr"], r["sym"], r["bounds"], 20.0)
         viol = violation(r["tabs"], r["kind"], r["names"], r["sym"], v)
         if viol is None or viol[0] != "all":
             return False
-        MMB._is_connected = _S["pristine"]
+        if variant == "pristine":
+            MMB._is_connected = _S["pristine"]
+        else:
+            ET._monotonic_sign = lambda e: None
         clear_cache()
         _clear_caches()
         expr = ast_sympy(r["tree"])
@@ -609,8 +626,29 @@ def _sound_with_pristine_sympy(r):
         return False
     finally:
         MMB._is_connected = _S["patched"]
+        ET._monotonic_sign = saved_ms
         clear_cache()
         _clear_caches()
+
+
+def _sound_with_pristine_sympy(r):
+    return _sound_after(r, "pristine")
+
+
+def _multi_symbol_denominator(e):
+    """syntactic guard of F15: a reciprocal whose denominator has >= 2 distinct symbols, 1/(y*z), 1/(y + z), x/(y*z**2) ..."""
+    _, sp, _ = _load()
+    for m in sp.preorder_traversal(e):
+        if m.is_Pow and m.exp.is_number and m.exp.is_negative and len(m.base.free_symbols) >= 2:
+            return True
+        if m.is_Mul:
+            den = set()
+            for a in m.args:
+                if a.is_Pow and a.exp.is_number and a.exp.is_negative:
+                    den |= a.base.free_symbols
+            if len(den) >= 2:
+                return True
+    return False
 
 
 def classes_of(r, want_f12=True):
@@ -619,6 +657,7 @@ def classes_of(r, want_f12=True):
     expr, out = r["expr"], []
     if expr.has(sp.ceiling):
         out.append("F9")
+    analysed = expr
     try:
         analysed = expr if r["kind"] != "diff" else sp.diff(sp.expand(expr), syms[r["sym"]])
         if len(analysed.atoms(sp.Heaviside)) >= 2:
@@ -633,8 +672,16 @@ def classes_of(r, want_f12=True):
             out.append("F11")
     if r["kind"] == "diff" and any(syms[r["sym"]] in h.free_symbols for h in expr.atoms(sp.Heaviside)):
         out.append("F13")
-    if want_f12 and _sound_with_pristine_sympy(r):
-        out.append("F12" if ast_has(r["tree"], ("min", "max")) else "F14")
+    if want_f12:
+        if _sound_with_pristine_sympy(r):
+            out.append("F12" if ast_has(r["tree"], ("min", "max")) else "F14")
+        else:
+            try:
+                guard = _multi_symbol_denominator(analysed)
+            except Exception:
+                guard = False
+            if guard and _sound_after(r, "monotonic"):
+                out.append("F15")
     return out
 
 
@@ -662,7 +709,8 @@ RULE = (
     "(cache-order sensitivity, stale per-expression caches) under the same contract. Known classes: F9 formula contains ceiling; F10 analysed expression has >= 2 distinct Heaviside atoms; F11 promise "
     "mode, f = 0 at both corners and not identically 0; F12 has Min/Max and is sound once sympy's own _is_connected is restored; F13 "
     "diff call on an f that itself contains Heaviside(.. s ..); F14 no Min/Max in f and sound once sympy's own _is_connected is "
-    "restored (function_range builds the Min/Max itself)."
+    "restored (function_range builds the Min/Max itself); F15 a reciprocal with >= 2 symbols in its denominator in the analysed "
+    "expression and sound once sympy's _monotonic_sign is disabled."
 )
 
 
@@ -967,6 +1015,7 @@ WITNESSES = {
     "F12": (("min", ("sub", C(2), S("z")), C(1)), {"z": (1, 3)}, "plain", None),
     "F13": (("hv", ("mul", C(2), S("z")), C(3)), {"z": (1, 3)}, "diff", "z"),
     "F14": (("mul", ("sub", S("x"), C(3)), ("sub", S("y"), C(1))), {"x": (1, 3), "y": (1, 3)}, "plain", None),
+    "F15": (("sub", ("div", S("x"), ("mul", S("y"), S("z"))), C(1)), {"x": (1, 3), "y": (1, 3), "z": (1, 3)}, "plain", None),
 }
 
 
